@@ -162,7 +162,14 @@ def scan(F, rep, ENGINE_FILES):
             key = "HASHITER/%s/%s#%d" % (name, kind, occ)
             if kind == "for":
                 effects = []
+                # variables that belong to one iteration: the loop pattern's and those bound inside the body
+                own = {b[1] for b in facts.pat_binds(node["pat"])}
+                for p_ in q.all_patterns(node["body"]):
+                    own |= {b[1] for b in facts.pat_binds(p_)}
+                carried = {q.base_var(x["lhs"]) for x in walk(node["body"]) if x.get("k") in ("Assign", "AssignOp")} - own
                 for x in walk(node["body"]):
+                    if x.get("k") == "Assign" and q.base_var(x["lhs"]) in own and not any(y.get("k") in ("Var", "Upvar") and y.get("id") in carried for y in walk(x["rhs"])):
+                        continue  # writes this iteration's own element from this iteration's own data
                     if x.get("k") == "Call" and x.get("fn") and (x["fn"].endswith("::push") or x["fn"].endswith("::extend") or x["fn"].endswith("::push_str") or x["fn"].endswith("::insert") and "Vec" in x["fn"]):
                         effects.append(show(x)[:60])
                     if x.get("k") in ("Return", "Break") and x.get("value"):
